@@ -1008,6 +1008,10 @@ pub fn run(ctx: &Ctx) -> i32 {
     if matches!(ctx.prop.as_str(), "C01" | "C03" | "C04" | "C02" | "C08" | "C19" | "C06" | "C07") && !miri {
         race_sweep(ctx, &sh);
     }
+    // ---- commands that are refused have no effect a concurrent reader could see
+    if matches!(ctx.prop.as_str(), "C01" | "C02" | "C06" | "C08" | "C03") && !miri {
+        refused_phase(ctx, &sh);
+    }
     // ---- present keys stay present while whole-store operations hold the map's locks for long
     if matches!(ctx.prop.as_str(), "C06" | "C04" | "C08") && !miri {
         long_holder_phase(ctx, &sh);
@@ -1349,6 +1353,7 @@ fn race_sweep(ctx: &Ctx, sh: &Shared) {
         (true, false, R::Del, R::SetCur),
         (true, false, R::DelCur, R::DelCur),
         (true, true, R::Get, R::Set),
+        (true, true, R::Get, R::Get),
         (false, false, R::SetCur, R::Set),
     ];
     let c04: Vec<(bool, bool, R, R)> = vec![
@@ -1394,6 +1399,7 @@ fn race_sweep(ctx: &Ctx, sh: &Shared) {
         _ => {
             let mut v = c03;
             v.extend(c04);
+            v.extend(c01);
             v
         }
     };
@@ -1401,6 +1407,9 @@ fn race_sweep(ctx: &Ctx, sh: &Shared) {
     let cap = Duration::from_secs(if ctx.thorough() { 30 } else { 6 });
     let t0 = Instant::now();
     let parallel = (ctx.workers / 3).max(1);
+    // every pair gets the same share of the time budget
+    let per_pair_cap = cap.mul_f64((parallel as f64 / pairs.len() as f64).min(1.0));
+    let _ = t0;
     let next = AtomicU64::new(0);
     std::thread::scope(|scope| {
         for _ in 0..parallel {
@@ -1410,7 +1419,7 @@ fn race_sweep(ctx: &Ctx, sh: &Shared) {
                     break;
                 }
                 let (present, expired, ra, rb) = pairs[pi];
-                let policy = if pi % 2 == 1 { Some(1u64 << 40) } else { None };
+                let policy = if pi % 2 == 1 || expired { Some(1u64 << 40) } else { None };
                 let timer = VirtualTimer::new(1000);
                 let inner = Arc::new(MemoryStore::new(timer.clone()));
                 let (pol, top): (Option<Arc<RandomPolicy>>, Arc<dyn Cache + Send + Sync>) = match policy {
@@ -1502,15 +1511,21 @@ fn race_sweep(ctx: &Ctx, sh: &Shared) {
                 let mut local: BTreeMap<String, u64> = BTreeMap::new();
                 let mut fps: Vec<u64> = vec![];
                 let mut overlapped = 0u64;
+                // a bystander key that no command of the sweep touches: whatever the two commands do to k0 (and
+                // to the store's bookkeeping), it must still be there after every round
+                let _ = conn.feed(&wire::store(op::SET, b"bystander", b"untouched", 1, 0, 0, 0).encode());
+                let pair_t0 = Instant::now();
                 for round in 1..=rounds {
-                    if t0.elapsed() > cap {
+                    if pair_t0.elapsed() > per_pair_cap {
                         break;
                     }
                     // set-up by the coordinator, nothing else running
                     let _ = conn.feed(&wire::delete(op::DELETE, &key, 0, 0).encode());
                     let init = if present {
                         let numeric = matches!(ra, R::Incr) || matches!(rb, R::Incr);
-                        let v: Vec<u8> = if numeric { b"10".to_vec() } else { b"old".to_vec() };
+                        // (an expired item is made large: bookkeeping released twice for it must not go unnoticed
+                        // behind the other records' share)
+                        let v: Vec<u8> = if numeric { b"10".to_vec() } else if expired { vec![b'o'; 3000] } else { b"old".to_vec() };
                         let o = conn.feed(&wire::store(op::SET, &key, &v, 7, if expired { 1 } else { 0 }, 0, 0).encode());
                         let c0 = wire::parse_all(&o.bytes).ok().and_then(|mut v| v.pop()).map(|r| r.cas).unwrap_or(0);
                         cur_cas.store(c0, Ordering::Release);
@@ -1550,6 +1565,15 @@ fn race_sweep(ctx: &Ctx, sh: &Shared) {
                         overlapped += 1;
                     }
                     *local.entry("race_sweep:rounds".into()).or_insert(0) += 1;
+                    let by = conn.feed(&wire::get(op::GET, b"bystander", 8).encode());
+                    let by_ok = wire::parse_all(&by.bytes).ok().and_then(|mut v| v.pop()).map(|r| r.status == st::OK && r.value == b"untouched").unwrap_or(false);
+                    if !by_ok {
+                        sh.ev.lock().unwrap().violation(
+                            Viol::new(&["C01", "C15", "C14"], "bystander-lost", format!("race sweep round {} ({:?} against {:?} on k0, policy {:?}, initial state {:?}): an item under another key, which no command touched, is gone (or changed)", round, ra, rb, policy, init)),
+                            json!({"engine":"lin-race-sweep","pair":format!("{:?}/{:?}",ra,rb),"round":round}),
+                        );
+                        break;
+                    }
                     if let LinRes::No { best } = linearizable(&ops, &init, 100_000) {
                         let mut hsx: Vec<&HOp> = ops.iter().collect();
                         hsx.sort_by_key(|o| o.call);
@@ -1583,6 +1607,107 @@ fn race_sweep(ctx: &Ctx, sh: &Shared) {
             });
         }
     });
+}
+
+/// A present item and connections that keep sending commands the server has to refuse - delete and set carrying
+/// a stale CAS, add on the present key, incr on its non-numeric value, append carrying a stale CAS - while
+/// readers get the key as fast as they can. A refused command "leaves the stored item byte-for-byte unchanged":
+/// every single get must hit and return the same value, flags and CAS.
+fn refused_phase(ctx: &Ctx, sh: &Shared) {
+    let cap = Duration::from_millis(if ctx.thorough() { 8000 } else { 1500 });
+    for policy in [None, Some(1u64 << 40)] {
+        let timer = VirtualTimer::new(100);
+        let inner = Arc::new(MemoryStore::new(timer.clone()));
+        let (pol, top): (Option<Arc<RandomPolicy>>, Arc<dyn Cache + Send + Sync>) = match policy {
+            None => (None, inner.clone()),
+            Some(l) => {
+                let p = Arc::new(RandomPolicy::new(inner.clone(), l));
+                (Some(p.clone()), p)
+            }
+        };
+        let stack = Stack::with_top(timer.clone(), inner, pol, top);
+        let key = b"steady".to_vec();
+        let mut conn = Conn::new(stack.memc.clone(), 1 << 20);
+        let o = conn.feed(&wire::store(op::SET, &key, b"steady-value", 0x77, 0, 1, 0).encode());
+        let c0 = match wire::parse_all(&o.bytes).ok().and_then(|mut v| v.pop()) {
+            Some(r) if r.status == st::OK => r.cas,
+            _ => continue,
+        };
+        let stop = Arc::new(AtomicBool::new(false));
+        let refused = Arc::new(AtomicU64::new(0));
+        let odd: Arc<Mutex<Vec<String>>> = Arc::new(Mutex::new(vec![]));
+        let mut hs = vec![];
+        for k in 0..5usize {
+            let (memc, stop, refused, odd, key) = (stack.memc.clone(), stop.clone(), refused.clone(), odd.clone(), key.clone());
+            hs.push(std::thread::spawn(move || {
+                let mut conn = Conn::new(memc, 1 << 20);
+                let stale = c0 ^ 0x0101_0000;
+                let (f, want, what): (wire::Frame, u16, &str) = match k {
+                    0 => (wire::delete(op::DELETE, &key, 1, stale), st::EXISTS, "delete carrying a stale CAS"),
+                    1 => (wire::store(op::SET, &key, b"never", 1, 0, 1, stale), st::EXISTS, "set carrying a stale CAS"),
+                    2 => (wire::store(op::ADD, &key, b"never", 1, 0, 1, 0), st::EXISTS, "add on the present key"),
+                    3 => (wire::counter(op::INCR, &key, 1, 1, 0, 1, 0), st::NON_NUMERIC, "incr on its non-numeric value"),
+                    _ => (wire::concat(op::APPEND, &key, b"never", 1, stale), st::EXISTS, "append carrying a stale CAS"),
+                };
+                let bytes = f.encode();
+                let mut n = 0u64;
+                while !stop.load(Ordering::Relaxed) {
+                    let o = conn.feed(&bytes);
+                    match wire::parse_all(&o.bytes).ok().and_then(|mut v| v.pop()) {
+                        Some(r) if r.status == want => n += 1,
+                        other => {
+                            odd.lock().unwrap().push(format!("{} answered {:?} instead of {:#x}", what, other.map(|r| r.brief()), want));
+                            break;
+                        }
+                    }
+                }
+                refused.fetch_add(n, Ordering::Relaxed);
+            }));
+        }
+        let t0 = Instant::now();
+        let hits = Arc::new(AtomicU64::new(0));
+        let bad: Arc<Mutex<Vec<String>>> = Arc::new(Mutex::new(vec![]));
+        let mut rs = vec![];
+        for _ in 0..3 {
+            let (memc, key, hits, bad) = (stack.memc.clone(), key.clone(), hits.clone(), bad.clone());
+            rs.push(std::thread::spawn(move || {
+                let mut conn = Conn::new(memc, 1 << 20);
+                let g = wire::get(op::GET, &key, 2).encode();
+                let mut n = 0u64;
+                while t0.elapsed() < cap && bad.lock().unwrap().is_empty() {
+                    let o = conn.feed(&g);
+                    match wire::parse_all(&o.bytes).ok().and_then(|mut v| v.pop()) {
+                        Some(r) if r.status == st::OK && r.value == b"steady-value" && r.flags() == Some(0x77) && r.cas == c0 => n += 1,
+                        other => {
+                            bad.lock().unwrap().push(format!("get answered {:?}", other.map(|r| r.brief())));
+                            break;
+                        }
+                    }
+                }
+                hits.fetch_add(n, Ordering::Relaxed);
+            }));
+        }
+        for h in rs {
+            let _ = h.join();
+        }
+        stop.store(true, Ordering::Relaxed);
+        for h in hs {
+            let _ = h.join();
+        }
+        let mut e = sh.ev.lock().unwrap();
+        e.evaluations += 1;
+        e.count("refused:commands_refused_while_readers_ran", refused.load(Ordering::Relaxed));
+        e.count("refused:gets_that_hit_the_unchanged_item", hits.load(Ordering::Relaxed));
+        for m in bad.lock().unwrap().iter().take(2) {
+            e.violation(
+                Viol::new(&["C01", "C06", "C08", "C02", "C03"], "refused-command-visible", format!("while other connections sent commands that are refused (stale-CAS delete / set / append, add on a present key, incr on a non-numeric value; policy {:?}): {} for an item that was never changed (value \"steady-value\", flags 0x77, CAS {})", policy, m, c0)),
+                json!({"engine":"lin-refused","policy":format!("{:?}",policy),"detail":m}),
+            );
+        }
+        for m in odd.lock().unwrap().iter().take(2) {
+            e.violation(Viol::new(&["C06", "C08", "C02", "C07"], "refusal-status", format!("policy {:?}: {}", policy, m)), json!({"engine":"lin-refused","detail":m}));
+        }
+    }
 }
 
 fn long_holder_phase(ctx: &Ctx, sh: &Shared) {
